@@ -19,8 +19,10 @@ def env_default_filters():
     return out
 
 
-def enumerate_tree(spec, filtered, limit=400000, custom=None):
+def enumerate_tree(spec, filtered, limit=400000, custom=None, past=None):
     """Exhaustive search with the REAL Dispatcher: every available operation x every eligible machine.
+    `past`: an abandoned episode played (and looked at) on the same dispatcher before the search starts with
+    dispatcher.reset() - the search space is the same, whatever the dispatcher did before.
     Returns (best makespan, leaves, nodes, dead_ends)."""
     common.import_impl()
     from job_shop_lib.dispatching import Dispatcher, filter_dominated_operations
@@ -28,6 +30,10 @@ def enumerate_tree(spec, filtered, limit=400000, custom=None):
     inst = common.build_instance(spec)
     filt = custom if custom is not None else (filter_dominated_operations if filtered else None)
     d = Dispatcher(inst, ready_operations_filter=filt)
+    for j, p, m in past or []:
+        d.dispatch(inst.jobs[j][p], m)
+        d.available_operations()
+        d.current_time()
     best = [None]
     cnt = {"leaves": 0, "nodes": 0, "dead": 0}
     total = sum(len(j) for j in spec)
@@ -104,7 +110,20 @@ class C08(Check):
                     for o in job:
                         if rng.random() < 0.5:
                             o[1] = (1 << 24) + rng.randint(-2, 3)
-            cases.append({"spec": spec})
+            case = {"spec": spec}
+            if rng.random() < 0.35:
+                # the dispatcher used for the search has an abandoned episode behind it
+                nxt = [0] * len(spec)
+                past = []
+                for _ in range(rng.randint(1, 3)):
+                    j = rng.randrange(len(spec))
+                    if nxt[j] < len(spec[j]):
+                        past.append([j, nxt[j], rng.choice(spec[j][nxt[j]][0])])
+                        nxt[j] += 1
+                if past:
+                    case["past"] = past
+                    self.note("search_after_abandoned_episode")
+            cases.append(case)
             self.note("cases")
             self.note("ops_total", total)
             st = common.instance_stats(spec)
@@ -150,8 +169,8 @@ class C08(Check):
     def run_impl(self, case):
         from job_shop_lib.dispatching import filter_dominated_operations
 
-        f = enumerate_tree(case["spec"], True)
-        u = enumerate_tree(case["spec"], False)
+        f = enumerate_tree(case["spec"], True, past=case.get("past"))
+        u = enumerate_tree(case["spec"], False, past=case.get("past"))
         envs = []
         for name, default in env_default_filters():
             if default is filter_dominated_operations:
@@ -159,7 +178,8 @@ class C08(Check):
             elif default is None:
                 envs.append([name, "no filter", list(u)])
             else:
-                envs.append([name, "other", list(enumerate_tree(case["spec"], True, custom=default))])
+                envs.append([name, "other", list(enumerate_tree(case["spec"], True, custom=default,
+                                                                past=case.get("past")))])
         return {"filtered": list(f), "unfiltered": list(u), "env_defaults": envs}
 
     def model_requests(self, case, obs):
@@ -205,6 +225,9 @@ class C08(Check):
 
     def shrink_candidates(self, case):
         spec = case["spec"]
+        if case.get("past"):
+            yield {"spec": spec}
+            yield {"spec": spec, "past": case["past"][:-1]} if len(case["past"]) > 1 else {"spec": spec}
         for j in range(len(spec)):
             if len(spec) > 1:
                 yield {"spec": spec[:j] + spec[j + 1:]}
